@@ -45,6 +45,28 @@ theorem reseed_history_free (g h : GenState) (hs : g.seed = h.seed) (sizes : Lis
     cases g; cases h; simp_all [reseed]
   rw [this]
 
+/-- the stream of a seed cut into requests of the given sizes: request j starts where request j − 1 ended -/
+def streamFrom (seed pos : Nat) : List Nat → List (Nat × Nat × Nat)
+  | [] => []
+  | k :: ks => (seed, pos, k) :: streamFrom seed (pos + k) ks
+
+theorem pass_stream_aux (sizes : List Nat) (st : GenState) (out : List (Nat × Nat × Nat)) :
+    (sizes.foldl (fun acc k => let r := draw acc.1 k; (r.1, acc.2 ++ [r.2])) (st, out)).2
+      = out ++ streamFrom st.seed st.pos sizes := by
+  induction sizes generalizing st out with
+  | nil => simp [streamFrom]
+  | cons k ks ih =>
+    simp only [List.foldl_cons, streamFrom]
+    rw [ih]
+    simp [draw]
+
+/-- **a pass is the generator's stream**: the chunks of a pass continue one another — chunk j draws the positions right after
+chunk j − 1 of the stream of the seed, never the same positions again (a reader that re-seeded per chunk would hand out copies) -/
+theorem pass_stream (g : GenState) (sizes : List Nat) : (pass g sizes).2 = streamFrom g.seed 0 sizes := by
+  unfold pass
+  rw [pass_stream_aux]
+  simp [reseed]
+
 /-- what a generator can have been used for before: full or partial passes of a reader, probes (centre generation) -/
 inductive Use
   | pass (sizes : List Nat)
@@ -152,6 +174,7 @@ theorem glue_pinned : Gen.pinRandomProbe = "0163df6a58e1fbdd" ∧ Gen.pinRandomI
 /-! non-vacuity -/
 example : randomSizes 10 4 11 0 = [4, 4, 2] := by decide
 example : randomSizes 8 4 9 0 = [4, 4] := by decide
+example : (pass ⟨7, 99⟩ [10, 10, 9]).2 = [(7, 0, 10), (7, 10, 10), (7, 20, 9)] := by decide
 example : (pass (reseedTo ⟨4242, 9⟩ 0) [2, 1]).2 = [(0, 0, 2), (0, 2, 1)] := by decide
 example : (pass ([Use.probe 5, Use.pass [3, 3]].foldl use ⟨42, 0⟩) [4, 2]).2 = [(42, 0, 4), (42, 4, 2)] := by decide
 
